@@ -71,26 +71,46 @@ theorem event_no_fire {a e : Limits} (hc : LimitsCovered a e) (ev : PeerEvent) (
     simp only [PeerEvent.fires, decide_eq_false_iff_not]
     exact key
 
-/-! ### the proposed repair: a Config recomputed from the advertised parameters covers them -/
+/-! ### `configCoveringAdvertised` + `newFlowController`: a Config recomputed from the advertised parameters covers them -/
 
-theorem cover_config_covers (c : Config) (p : OwnParams) (hidle : 0 < p.maxIdleTimeout) :
-    LimitsCovered (advertised p) (enforced (coverConfig c p) p.activeConnectionIDLimit) := by
+theorem coverConfig_isrw_ge (c : Config) (p : OwnParams) (k : StreamKind) :
+    p.streamData k ≤ (coverConfig c p).initialStreamReceiveWindow := by
+  show p.streamData k ≤ max c.initialStreamReceiveWindow
+      (max p.initialMaxStreamDataBidiLocal (max p.initialMaxStreamDataBidiRemote p.initialMaxStreamDataUni))
+  cases k <;> simp only [OwnParams.streamData] <;> omega
+
+/-- the window a stream of kind `k` starts with covers what was advertised for that kind, whether
+    `newFlowController` uses the per-kind record (`some p`) or the Config's single window (`none`) -/
+theorem streamWindow_covers (c : Config) (p : OwnParams) (adv : Option OwnParams) (hadv : adv = none ∨ adv = some p)
+    (k : StreamKind) : p.streamData k ≤ streamWindow (coverConfig c p) adv k := by
+  rcases hadv with h | h <;> subst h
+  · exact coverConfig_isrw_ge c p k
+  · exact Int.le_refl _
+
+theorem coverConfig_conn_ge (c : Config) (p : OwnParams) :
+    p.initialMaxData ≤ (coverConfig c p).initialConnectionReceiveWindow := by
+  show p.initialMaxData ≤ (if Limits.specConnWindowExact then p.initialMaxData
+    else max c.initialConnectionReceiveWindow p.initialMaxData)
+  split <;> omega
+
+theorem coverConfig_streams_ge (c : Config) (p : OwnParams) :
+    p.maxBidiStreamNum ≤ (coverConfig c p).maxIncomingStreams ∧ p.maxUniStreamNum ≤ (coverConfig c p).maxIncomingUniStreams := by
+  constructor
+  · show p.maxBidiStreamNum ≤ (if Limits.specStreamCountsExact then p.maxBidiStreamNum else max c.maxIncomingStreams p.maxBidiStreamNum)
+    split <;> omega
+  · show p.maxUniStreamNum ≤ (if Limits.specStreamCountsExact then p.maxUniStreamNum else max c.maxIncomingUniStreams p.maxUniStreamNum)
+    split <;> omega
+
+theorem cover_config_covers (c : Config) (p : OwnParams) (adv : Option OwnParams) (hadv : adv = none ∨ adv = some p)
+    (hidle : 0 < p.maxIdleTimeout) :
+    LimitsCovered (advertised p) (enforced (coverConfig c p) adv p.activeConnectionIDLimit) := by
   refine ⟨?_, ?_, ?_, ?_, ?_, ?_, ?_, ?_, ?_⟩
-  · show p.initialMaxData ≤ max c.initialConnectionReceiveWindow p.initialMaxData
-    omega
-  · show p.initialMaxStreamDataBidiLocal ≤ max c.initialStreamReceiveWindow
-      (max p.initialMaxStreamDataBidiLocal (max p.initialMaxStreamDataBidiRemote p.initialMaxStreamDataUni))
-    omega
-  · show p.initialMaxStreamDataBidiRemote ≤ max c.initialStreamReceiveWindow
-      (max p.initialMaxStreamDataBidiLocal (max p.initialMaxStreamDataBidiRemote p.initialMaxStreamDataUni))
-    omega
-  · show p.initialMaxStreamDataUni ≤ max c.initialStreamReceiveWindow
-      (max p.initialMaxStreamDataBidiLocal (max p.initialMaxStreamDataBidiRemote p.initialMaxStreamDataUni))
-    omega
-  · show p.maxBidiStreamNum ≤ max c.maxIncomingStreams p.maxBidiStreamNum
-    omega
-  · show p.maxUniStreamNum ≤ max c.maxIncomingUniStreams p.maxUniStreamNum
-    omega
+  · exact coverConfig_conn_ge c p
+  · exact streamWindow_covers c p adv hadv .bidiLocal
+  · exact streamWindow_covers c p adv hadv .bidiRemote
+  · exact streamWindow_covers c p adv hadv .uni
+  · exact (coverConfig_streams_ge c p).1
+  · exact (coverConfig_streams_ge c p).2
   · simp only [advertised, enforced, Protocol.DefaultActiveConnectionIDLimit, Protocol.MaxActiveConnectionIDs]
     split <;> omega
   · by_cases hd : p.maxDatagramFrameSize ≤ 0
